@@ -218,7 +218,10 @@ def cmd_check(out, jobs):
         wt = mk_wt()
         od = tempfile.mkdtemp(prefix="mso.", dir="/tmp")
         try:
-            apply_mut(wt, m)
+            # the survivor's own diff (made at the time of the suite run): applies with offsets after later /repo commits
+            a = subprocess.run(["git", "-C", wt, "apply", os.path.join(out, f"m{m['id']}.diff")], capture_output=True)
+            if a.returncode:
+                return m["id"], {"-": [-7, 0]}
             r = {}
             for c in m["checks"]:
                 env = dict(os.environ, VERIF_REPO=wt, VERIF_OUT=od, TMPDIR=od)
